@@ -109,6 +109,9 @@ func (b *SMT) Fresh(prefix, sort string) string {
 }
 
 func (b *SMT) Define(prefix, sort, term string) string {
+	if strings.Contains(term, "qv!") {
+		return term // mentions a bound variable of an enclosing quantifier: cannot be named globally
+	}
 	b.n++
 	name := fmt.Sprintf("%s!%d", sanitize(prefix), b.n)
 	b.lines = append(b.lines, fmt.Sprintf("(define-fun %s () %s %s)", name, sort, term))
